@@ -272,7 +272,10 @@ def svg_text(g):
     for it in g.viewbox and g.items:
         body.append(item_xml(it))
     vb = " ".join(_n(v) for v in g.viewbox)
-    return f'<svg xmlns="http://www.w3.org/2000/svg" viewBox="{vb}"><defs>{"".join(defs)}</defs>{"".join(body)}</svg>'
+    # (root_id / extra_ids: sources that come out of an OT-SVG font carry id="glyph<N>" already)
+    rid = f' id="{g.root_id}"' if getattr(g, "root_id", None) else ""
+    extra = "".join(f'<g id="{x}"/>' for x in getattr(g, "extra_ids", ()))
+    return f'<svg xmlns="http://www.w3.org/2000/svg"{rid} viewBox="{vb}"><defs>{"".join(defs)}</defs>{"".join(body)}{extra}</svg>'
 
 
 # --------------------------------------------------------------------------- tiny renderer
@@ -573,7 +576,14 @@ class ColrEval:
             self.clips = t.ClipList.clips if getattr(t, "ClipList", None) else {}
             self.v0 = {}
             if getattr(t, "BaseGlyphRecordArray", None):
-                pass
+                # v0-style records inside a version 1 table
+                class _L:
+                    def __init__(self, name, colorID):
+                        self.name, self.colorID = name, colorID
+
+                lr = t.LayerRecordArray.LayerRecord
+                for r in t.BaseGlyphRecordArray.BaseGlyphRecord:
+                    self.v0[r.BaseGlyph] = [_L(l.LayerGlyph, l.PaletteIndex) for l in lr[r.FirstLayerIndex : r.FirstLayerIndex + r.NumLayers]]
 
     def polys(self, name):
         if name not in self._polys:
